@@ -1307,6 +1307,14 @@ class SubComponent(CanBeVaries):
                 self._value = datatype_factory(self.datatype, value, self.version,
                                                self.validation_level)
             elif not value or isinstance(value, BaseDataType):
+                if isinstance(value, BaseDataType) and Validator.is_strict(self.validation_level) and \
+                        value.value not in (None, ''):
+                    # the object may come from anywhere (another validation level, another datatype): under STRICT
+                    # it has to pass what the same value given as text would have to pass
+                    if self.datatype is not None and value.classname != self.datatype:
+                        raise ValueError('{0} is not an HL7 valid {1} value'.format(value.classname, self.datatype))
+                    text = value.value if isinstance(value.value, basestring) else value.to_er7()
+                    datatype_factory(self.datatype or value.classname, text, self.version, self.validation_level)
                 self._value = value
             else:
                 raise ValueError('Cannot assign {0}'.format(value.classname))
